@@ -5,14 +5,14 @@ package enum
 // Contracts for package enum (comment-only; checked by /verif/engine).
 
 // a type is excluded when SOME pattern matches both its package path and its name
-//@ func IDPatterns.Matches
+//@ func IDPatterns.Matches(ids; path, name)
 //@   props C08
 //@   pure
 //@   loop 1 invariant forall j int :: 0 <= j && j < idx ==> !(ids[j].Path.MatchString(path) && ids[j].Name.MatchString(name))
 //@   ensures result == (exists j int :: 0 <= j && j < len(ids) && ids[j].Path.MatchString(path) && ids[j].Name.MatchString(name))
 
 // Detect only fills a map it allocates itself
-//@ func Detect
+//@ func Detect(named)
 //@   props C08
 //@   assigns nothing
 // every constant of the named type declared in its package is a member, exported or not
